@@ -28,26 +28,36 @@ pub enum SymOp {
 }
 
 fn oi(v: &Value) -> Option<usize> {
+    if v.is_string() {
+        return Some(ui(v));
+    }
     v.as_i64().and_then(|x| if x < 0 { None } else { Some(x as usize) })
 }
 fn ui(v: &Value) -> usize {
     if let Some(s) = v.as_str() {
-        // symbolic orders / sizes: HO, TO, HF, TF with optional +n / -n
-        let (base, off) = if let Some((b, o)) = s.split_once('+') {
-            (b, o.parse::<isize>().unwrap())
-        } else if let Some((b, o)) = s.split_once('-') {
-            (b, -o.parse::<isize>().unwrap())
-        } else {
-            (s, 0)
-        };
-        let b = match base {
-            "HO" => HO,
-            "TO" => TO,
-            "HF" => HF,
-            "TF" => TF,
-            _ => panic!("symbol {s}"),
-        } as isize;
-        return (b + off) as usize;
+        // symbolic sizes: sum of terms HO | TO | HF | TF | <int>, e.g. "HO+1", "TF+TF+5", "TO-1"
+        let mut total: isize = 0;
+        let mut sign = 1isize;
+        let mut cur = String::new();
+        for ch in s.chars().chain(std::iter::once('+')) {
+            if ch == '+' || ch == '-' {
+                if !cur.is_empty() {
+                    let t = match cur.as_str() {
+                        "HO" => HO as isize,
+                        "TO" => TO as isize,
+                        "HF" => HF as isize,
+                        "TF" => TF as isize,
+                        x => x.parse::<isize>().unwrap_or_else(|_| panic!("symbol {s}")),
+                    };
+                    total += sign * t;
+                    cur.clear();
+                }
+                sign = if ch == '-' { -1 } else { 1 };
+            } else {
+                cur.push(ch);
+            }
+        }
+        return total.max(0) as usize;
     }
     v.as_u64().unwrap_or(0) as usize
 }
@@ -605,13 +615,17 @@ impl<'a> Explore<'a> {
         r
     }
 
-    /// stateless DFS over schedules with at most `bound` pre-emptions
+    /// stateless search over schedules with at most `bound` pre-emptions, fewest pre-emptions first
+    /// (so that a cut-off by `limit` loses the schedules with many pre-emptions, not a whole region)
     pub fn dfs(&mut self, bound: usize, opts: &ExecOpts, limit: usize) {
-        let mut stack: Vec<Vec<usize>> = vec![vec![]];
-        while let Some(prefix) = stack.pop() {
+        let mut stacks: Vec<Vec<Vec<usize>>> = vec![vec![]; bound + 1];
+        stacks[0].push(vec![]);
+        loop {
             if self.execs >= limit {
                 break;
             }
+            let Some(level) = (0..=bound).find(|l| !stacks[*l].is_empty()) else { break };
+            let prefix = stacks[level].pop().unwrap();
             let plen = prefix.len();
             let r = self.run(&mut Strategy::Prefix(prefix), opts, vec![]);
             let chosen: Vec<usize> = r.steps.iter().map(|s| s.chosen).collect();
@@ -629,7 +643,7 @@ impl<'a> Explore<'a> {
                     if p <= bound {
                         let mut np = chosen[..i].to_vec();
                         np.push(alt);
-                        stack.push(np);
+                        stacks[p].push(np);
                     }
                 }
             }
@@ -821,6 +835,7 @@ fn decode_op(lay: &crate::decode::Layout, o: &hook::OpRec) -> Value {
         hook::K_LOAD => "load",
         hook::K_STORE => "store",
         hook::K_SWAP => "swap",
+        4 => "rmw",
         _ => "cas",
     };
     let dec = |v: u64| -> Value {
